@@ -269,3 +269,134 @@ def flip_negated_tail(chain, recognised):
         if not recognised(t) and recognised(nt):
             return chain[:-2] + [(ast.fix_missing_locations(ast.copy_location(nt, t)), chain[-1][1]), (None, chain[-2][1])]
     return chain
+
+
+# ---------------------------------------------------------------------------------------- symbolic path summaries
+class SymPath:
+    """one path of a function with every local replaced by the expression it holds on that path:
+    conds = [(canonical text of the substituted test, polarity, node)], value = substituted returned/raised expression (AST or None),
+    term = 'return' | 'raise' | 'fall', effects = substituted expression statements / stores met on the way (ASTs)"""
+    def __init__(self, conds, value, term, effects, node, env):
+        self.conds, self.value, self.term, self.effects, self.node, self.env = conds, value, term, effects, node, env
+
+    def text(self):
+        return N(self.value) if self.value is not None else None
+
+    def holds(self, text, polarity=True):
+        """is the atom (canonical text, after and/or/not decomposition) assumed with this polarity on the path?"""
+        want = NS(text)
+        for t, pol, _ in self.atoms():
+            if t == want and pol == polarity:
+                return True
+            try:
+                if t == N(negate(ast.parse(want, mode='eval').body)) and pol != polarity:
+                    return True
+            except Exception:
+                pass
+        return False
+
+    def atoms(self):
+        out = []
+
+        def add(e, pol):
+            if isinstance(e, ast.UnaryOp) and isinstance(e.op, ast.Not):
+                add(e.operand, not pol)
+            elif isinstance(e, ast.BoolOp) and isinstance(e.op, ast.And) and pol:
+                for v in e.values:
+                    add(v, True)
+            elif isinstance(e, ast.BoolOp) and isinstance(e.op, ast.Or) and not pol:
+                for v in e.values:
+                    add(v, False)
+            else:
+                out.append((N(e), pol, e))
+        for t, pol, e in self.conds:
+            add(e, pol)
+        return out
+
+    def __repr__(self):
+        return '<SymPath [%s] -> %s %s>' % (' & '.join(('' if p else 'not ') + t for t, p, _ in self.conds), self.term, self.text())
+
+
+def sym_paths(fn, bound=512):
+    """Path summaries of a (loop-free part of a) function, insensitive to how it is spelled: temporaries are substituted by their values,
+    conditional expressions in returned values and in assigned values are split into paths like if-statements, else/elif/early-return
+    are the same thing. Names assigned inside loops or by statements the substitution does not model become opaque (`name`@line)."""
+    node = fn.node if hasattr(fn, 'node') else fn
+    out = []
+    looped = set()
+    for n in ast.walk(node):
+        if isinstance(n, (ast.For, ast.While, ast.AsyncFor)):
+            for m in ast.walk(n):
+                if isinstance(m, ast.Name) and isinstance(m.ctx, ast.Store):
+                    looped.add(m.id)
+
+    def sub(e, env):
+        if e is None:
+            return None
+        return subst_names(e, env) if env else e
+
+    def split_value(e, conds):
+        """[(conds, expr)] with top-level conditional expressions unfolded"""
+        if isinstance(e, ast.IfExp):
+            return split_value(e.body, conds + [(N(e.test), True, e.test)]) + split_value(e.orelse, conds + [(N(e.test), False, e.test)])
+        return [(conds, e)]
+    for p in paths(node.body, bound=bound):
+        states = [([], {}, [])]          # (conds, env, effects)
+        for item in p.seq:
+            nxt = []
+            for conds, env, eff in states:
+                if item[0] == 'c':
+                    t, pol = item[1], item[2]
+                    if isinstance(t, ast.AST):
+                        st = sub(t, env)
+                        nxt.append((conds + [(N(st), pol, st)], env, eff))
+                    else:
+                        nxt.append((conds, env, eff))
+                    continue
+                s = item[1]
+                if isinstance(s, ast.Assign) and len(s.targets) == 1 and isinstance(s.targets[0], ast.Name):
+                    nm = s.targets[0].id
+                    if nm in looped:
+                        e2 = dict(env); e2.pop(nm, None)
+                        nxt.append((conds, e2, eff))
+                        continue
+                    for c2, v in split_value(sub(s.value, env), conds):
+                        e2 = dict(env)
+                        e2[nm] = v
+                        nxt.append((c2, e2, eff))
+                elif isinstance(s, ast.Assign) and len(s.targets) == 1 and isinstance(s.targets[0], ast.Tuple) and isinstance(s.value, ast.Tuple) \
+                        and len(s.targets[0].elts) == len(s.value.elts) and all(isinstance(t, ast.Name) for t in s.targets[0].elts):
+                    e2 = dict(env)
+                    vals = [sub(v, env) for v in s.value.elts]
+                    for t, v in zip(s.targets[0].elts, vals):
+                        e2[t.id] = v
+                    nxt.append((conds, e2, eff))
+                elif isinstance(s, (ast.Assign, ast.AugAssign, ast.AnnAssign, ast.For, ast.While, ast.With, ast.AsyncFor, ast.AsyncWith, ast.Delete, ast.Import, ast.ImportFrom)):
+                    e2 = dict(env)
+                    for m in ast.walk(s):
+                        if isinstance(m, ast.Name) and isinstance(m.ctx, (ast.Store, ast.Del)):
+                            e2.pop(m.id, None)
+                    if isinstance(s, (ast.Assign, ast.AugAssign)):
+                        tg = s.targets[0] if isinstance(s, ast.Assign) else s.target
+                        if isinstance(tg, (ast.Subscript, ast.Attribute)):
+                            eff = eff + [ast.Assign(targets=[sub(tg, env)], value=sub(s.value, env))]
+                            root = tg
+                            while isinstance(root, (ast.Subscript, ast.Attribute)):
+                                root = root.value
+                            if isinstance(root, ast.Name) and root.id != 'self':     # the object the name holds was modified in place
+                                e2[root.id] = ast.Name(id='%s__modified_at_%d' % (root.id, getattr(s, 'lineno', 0)), ctx=ast.Load())
+                    nxt.append((conds, e2, eff))
+                elif isinstance(s, ast.Expr):
+                    nxt.append((conds, env, eff + [sub(s.value, env)]))
+                else:
+                    nxt.append((conds, env, eff))
+            states = nxt
+            if len(states) > bound:
+                raise AnalysisError('symbolic path bound exceeded in %s' % getattr(fn, 'qual', '?'))
+        for conds, env, eff in states:
+            if p.term in ('return', 'raise') and p.value is not None:
+                for c2, v in split_value(sub(p.value, env), conds):
+                    out.append(SymPath(c2, v, p.term, eff, p.node, env))
+            else:
+                out.append(SymPath(conds, None, p.term if p.term in ('return', 'raise') else 'fall', eff, p.node, env))
+    return out
